@@ -197,9 +197,9 @@ func (x *wl) runWorkload(steps int, faults bool) {
 		case k < 62 && faults:
 			switch r.Intn(4) {
 			case 0:
-				s.DataSync.FailErr, s.DataSync.FailNext = status.Error(codes.Internal, "injected sync failure"), r.Range(1, 2)
+				s.DataSync.SetFail(r.Range(1, 2), status.Error(codes.Internal, "injected sync failure"))
 			case 1:
-				s.State.FailErr, s.State.FailNext = status.Error(codes.Internal, "injected state write failure"), r.Range(1, 2)
+				s.State.SetFail(r.Range(1, 2), status.Error(codes.Internal, "injected state write failure"))
 			default:
 				kind := []string{"create", "fwrite", "fsync", "close", "rename", "dirsync", "remove"}[r.Intn(7)]
 				s.M.Dir.AddFaultNext(kind, int64(r.Range(1, 2)), fmt.Errorf("injected %s failure", kind))
